@@ -1,5 +1,6 @@
 import Fadl.Lemmas.Basic
 import Fadl.Lemmas.Mono
+import Fadl.Props.C13
 import Fadl.Props.C15
 import Fadl.Props.C17
 import Fadl.Props.C19
